@@ -905,11 +905,17 @@ func realLoopback(r *eng.Run) {
 		ctx, cancel = context.WithDeadline(ctx, time.Now().Add(time.Hour))
 	}
 	var fired atomic.Bool
-	guard := time.AfterFunc(safety, func() { fired.Store(true); cancel() })
-	if kind == 2 {
-		// Nothing to cancel: the watchdog of the worker is the safety net.
-		guard.Stop()
-	}
+	guard := time.AfterFunc(safety, func() {
+		fired.Store(true)
+		cancel()
+		// (With the background context there is nothing to cancel: the silent
+		// peer hangs up instead, which ends any wait on the socket.)
+		mu.Lock()
+		for _, c := range held {
+			c.Close()
+		}
+		mu.Unlock()
+	})
 	d := ws.Dialer{Timeout: 20 * time.Millisecond}
 	t0 := time.Now()
 	conn, br, _, derr := d.Dial(ctx, "ws://"+ln.Addr().String()+"/chat")
